@@ -32,7 +32,7 @@ CLAUSE_PROP = {
     "MalformedFex": "C01",
     "BackendsAgreeAtRunTime": "C01", "JacobiansAgreeAtRunTime": "C02",
     "JacTerms": "C02", "Inv:JacIsDerivative": "C02", "JacobianReadsTheSameAbundancesAsTheRhs": "C02", "OmittedIsZero": "C02", "WrapperOnThermalCellsOnly": "C02", "MalformedJac": "C02",
-    "MacroExpressionsParenthesised": "C03", "BatchStrideIsSystemSize": "C03",
+    "MacroExpressionsParenthesised": "C03", "BatchStrideIsSystemSize": "C03", "BatchedMatrixGetsItsStructure": "C03",
     "TermsOnlyInRange": "C03", "CellsInRange": "C03", "NoCellAssignedTwice": "C03", "MacroNSPECIES": "C03", "MacroNEQUATIONS": "C03",
     "MacroNREACTIONS": "C03", "MacroThermal": "C03", "SubscriptsInBounds": "C03", "CsrComplete": "C03", "CsrWellFormed": "C03",
     "CsrDataWithinNNZ": "C03", "CsrCellsAreTheCells": "C03", "PatternMarksStoredEntries": "C03", "BackendsAgree": "C03", "SameValueAtTheSameCell": "C03",
@@ -220,7 +220,7 @@ def observe(ctx: Ctx, net, desc: dict, case_id: int, with_pattern: bool):
         ext = "cu" if device == "gpu" else "cpp"
         if solver == "cvode":
             tmpl = ["include/naunet_macros.h.j2", "src/naunet_fex.cpp.j2", "src/naunet_jac.cpp.j2", "src/naunet_physics.cpp.j2",
-                    "src/naunet_rates.cpp.j2"]
+                    "src/naunet_rates.cpp.j2"] + (["src/naunet.cpp.j2"] if tag == "cusparse" else [])
         else:
             tmpl = ["include/naunet_macros.h.j2", "src/naunet_ode.cpp.j2", "src/naunet_physics.cpp.j2"]
         render(net, solver, method, d, templates=tmpl, device=device, jac_pattern=(with_pattern and tag == "sparse"))
@@ -238,6 +238,11 @@ def observe(ctx: Ctx, net, desc: dict, case_id: int, with_pattern: bool):
             o["jac_error"] = str(e)
         o["physics"] = (d / "src" / f"naunet_physics.{ext}").read_text()
         o["strides"] = {"fex": creader.batch_strides(fexfile.read_text()), "jac": creader.batch_strides(jacfile.read_text())} if tag == "cusparse" else {}
+        # (the batched back-end: every matrix the solver class creates -- in Init and again in Reset -- must get its CSR structure)
+        o["matrix_sites"] = None
+        if tag == "cusparse":
+            cls = next((d / "src" / nm_ for nm_ in ("naunet.cu", "naunet.cpp") if (d / "src" / nm_).exists()), None)
+            o["matrix_sites"] = creader.batched_matrix_sites(cls.read_text()) if cls else []
         ratefile = d / "src" / (f"naunet_rates.{ext}" if solver == "cvode" else "naunet_ode.cpp")
         o["k_assigned"] = [int(x) for x in re.findall(r"(?<![\w.])k\s*\[\s*(\d+)\s*\]\s*=[^=]", creader.strip_comments(ratefile.read_text()))]
         if with_pattern and tag == "sparse":
@@ -341,6 +346,7 @@ def make_trace(tid: int, desc: dict, tag: str, o: dict, extra_species: list[str]
         "unparenthesised": len(macros.get("__unparenthesised__", [])),
         "strides_ok": all(v == "NEQUATIONS" for v in o.get("strides", {}).get("fex", {}).values())
         and all(v == ("NNZ" if k == "jistart" else "NEQUATIONS") for k, v in o.get("strides", {}).get("jac", {}).items()),
+        "structure_uploaded": o.get("matrix_sites") is None or (len(o["matrix_sites"]) >= 2 and all(x[2] for x in o["matrix_sites"])),
         "yarr_fex": sorted(k for k in fex["maxsub"] if k in ("y", "y_cur")), "yarr_jac": sorted(k for k in jac["maxsub"] if k in ("y", "y_cur")),
     }
     if fin["has_csr"]:
